@@ -24,6 +24,7 @@ import (
 	"fmt"
 	"math/big"
 	"os"
+	"os/exec"
 	"reflect"
 	"sort"
 	"strings"
@@ -151,17 +152,119 @@ func mkQuery(root contactql.QueryNode, resolver contactql.Resolver) *contactql.C
 	return q
 }
 
-// result of one EvaluateQuery call: "true" | "false" | "panic"
+// result of one EvaluateQuery call: "true" | "false" | "panic".  The call runs in its own goroutine under a watchdog:
+// when it has not returned after evalTimeout the driver records the failure, writes what it has and exits (the stuck
+// goroutine cannot be stopped; bin/check reads result.json and reports the failing input).
+const evalTimeout = 60 * time.Second
+
+var onHang func(text string)
+
 func evalReal(env envs.Environment, q *contactql.ContactQuery, c *flows.Contact) (out string, msg string) {
-	defer func() {
-		if r := recover(); r != nil {
-			out, msg = "panic", fmt.Sprint(r)
-		}
+	type r struct{ out, msg string }
+	ch := make(chan r, 1)
+	go func() {
+		var o, m string
+		func() {
+			defer func() {
+				if p := recover(); p != nil {
+					o, m = "panic", fmt.Sprint(p)
+				}
+			}()
+			if contactql.EvaluateQuery(env, q, c) {
+				o = "true"
+			} else {
+				o = "false"
+			}
+		}()
+		ch <- r{o, m}
 	}()
-	if contactql.EvaluateQuery(env, q, c) {
-		return "true", ""
+	select {
+	case x := <-ch:
+		return x.out, x.msg
+	case <-time.After(evalTimeout):
+		if onHang != nil {
+			onHang(contactql.Stringify(q.Root()))
+		}
+		os.Exit(3)
 	}
-	return "false", ""
+	return "", ""
+}
+
+// ---- probes for evaluations that do not return, each in a worker subprocess that can be killed -------------------
+
+// number literals whose decimal exponent is far outside anything a contact holds: Decimal.Cmp rescales with big.Int
+// to 10^|exponent difference|
+var hangProbes = []string{"1e300000000", "1E999999999", "1e-300000000", "0.1e2147483647", "36e-2147483648", "-5e400000000", "1e2147483647"}
+
+const probeEnv = "VERIF_C15_PROBE"
+
+// worker: evaluate `tickets <op> <literal>` against a fixed contact and print the outcome
+func probeWorker(text string) {
+	env := envs.NewBuilder().Build()
+	q, err := contactql.ParseQuery(env, text, nil)
+	if err != nil {
+		fmt.Println("rejected")
+		return
+	}
+	sa, err := engine.NewSessionAssets(env, mustSource(`{}`), nil)
+	if err != nil {
+		panic(err)
+	}
+	c, err := flows.ReadContact(sa, []byte(`{"uuid": "c0000000-0000-4000-8000-000000000000", "status": "active", "created_on": "2020-01-01T00:00:00Z"}`), assets.IgnoreMissing)
+	if err != nil {
+		panic(err)
+	}
+	fmt.Println("evaluated:", contactql.EvaluateQuery(env, mkQuery(q.Root(), &myResolver{fields: sa.Fields()}), c))
+}
+
+func mustSource(j string) *static.StaticSource {
+	s, err := static.NewSource([]byte(j))
+	if err != nil {
+		panic(err)
+	}
+	return s
+}
+
+func runHangProbes(res *hx.Result, r *hx.Rand) {
+	exe, err := os.Executable()
+	if err != nil {
+		res.Fail("harness:no-executable", nil, err.Error())
+		return
+	}
+	probes := append([]string{}, hangProbes...)
+	for i := 0; i < 3; i++ {
+		probes = append(probes, fmt.Sprintf("%de%s%d", 1+r.Intn(9), hx.Pick(r, []string{"", "-"}), 300000000+r.Intn(1500000000)))
+	}
+	for _, lit := range probes {
+		text := "tickets " + hx.Pick(r, []string{">", "<", "=", "!=", ">=", "<="}) + " " + lit
+		cmd := exec.Command(exe)
+		cmd.Env = append(os.Environ(), probeEnv+"="+text)
+		type outT struct {
+			b   []byte
+			err error
+		}
+		done := make(chan outT, 1)
+		if err := cmd.Start(); err != nil {
+			res.Fail("harness:probe-start", text, err.Error())
+			continue
+		}
+		go func() { err := cmd.Wait(); done <- outT{nil, err} }()
+		res.OracleChecks++
+		res.Eval("probe/"+text, true)
+		select {
+		case o := <-done:
+			if o.err != nil {
+				res.Fail("panic:eval:number-literal-huge-exponent", map[string]any{"query_text": text}, "the worker evaluating the query died: "+o.err.Error())
+			} else {
+				res.Dist("hang-probe:returned")
+			}
+		case <-time.After(25 * time.Second):
+			cmd.Process.Kill()
+			<-done
+			res.Fail("hang:eval:number-literal-huge-exponent", map[string]any{"query_text": text, "contact": "tickets = 0"},
+				fmt.Sprintf("%q passes ParseQuery, EvaluateQuery had not returned after 25 s (worker killed)", text))
+		}
+	}
 }
 
 func resCoq(s string) string {
@@ -272,8 +375,8 @@ var flowNames = []string{"Registration", "Catch All"}
 
 var namePool = []string{"Bob Smithwick", "ann", "  Élodie  Dupont", "李 小龍", "O'Neil-Mc Donald", "X", "bob", "Ann Marie Johansson-Lindqvist", "ΑΛΕΞΗΣ Ζορμπάς", "A B"}
 var numPool = []string{"0", "1", "1.0", "1.00", "10", "1e1", "0.1", "0.10", "-1", "-1.50", "-0", "36", "36.000", "35.999", "36.001",
-	"123456789012345678901234567890", "123456789012345678901234567890.0", "0.000000000000000001", "1E-18", "+5", "5.", ".5", "1e-2", "0.01", "100e-2"}
-var badNumPool = []string{"abc", "1.2.3", "--1", "1e", "e5", "１", "1 ", "0x10", "1_000", "", "+", ".", "1e+", "36 years", "1,5"}
+	"123456789012345678901234567890", "123456789012345678901234567890.0", "0.000000000000000001", "1E-18", "+5", "5.", ".5", "1e-2", "0.01", "100e-2", "1e1000", "36e-1000", "0.5e1001"}
+var badNumPool = []string{"1e1001", "1e-1001", "3.6e1002", "abc", "1.2.3", "--1", "1e", "e5", "１", "1 ", "0x10", "1_000", "", "+", ".", "1e+", "36 years", "1,5"}
 var urnPool = []string{"tel:+12065551212", "tel:+12065551313", "tel:+250788123123", "twitter:bob_smith", "twitter:ANN",
 	"mailto:bob@example.com", "whatsapp:12065551212", "facebook:1234567", "telegram:7654321", "tel:+593979111222"}
 var locPool = []string{"Rwanda > Kigali City", "Rwanda > Kigali City > Gasabo", "Rwanda > Kigali City > Gasabo > Ndera", "Rwanda>Eastern Province", "Rwanda >  Kigali City  ", "Nowhere"}
@@ -1049,6 +1152,10 @@ type caseOut struct {
 }
 
 func main() {
+	if t := os.Getenv(probeEnv); t != "" {
+		probeWorker(t)
+		return
+	}
 	o := hx.ParseOpts()
 	res := hx.NewResult(o, "worlds = (timezone of 18 incl. DST/half-hour/midnight-transition zones, date format, 6-10 fields of all six types "+
 		"with keys that collide with attribute names, 3-5 contacts with missing values, 0-4 URNs, datetimes on/around local midnights of "+
@@ -1076,6 +1183,13 @@ func main() {
 	}
 
 	root := hx.NewRand(o.Seed)
+	onHang = func(text string) {
+		res.Fail("hang:eval:in-process", map[string]any{"query_text": text}, fmt.Sprintf("EvaluateQuery(%q) had not returned after %s", text, evalTimeout))
+		res.Write(o)
+	}
+	if onlyWorld < 0 {
+		runHangProbes(res, root.Fork("hang"))
+	}
 	nWorlds := o.Count(36, 1500)
 	treesPer := 14
 	if o.Tier == "thorough" {
